@@ -254,6 +254,22 @@ func unsafeForBatch(cmd []string) bool {
 				return true
 			}
 		}
+	case "JSET":
+		return jsetHugeIndex(cmd)
+	}
+	return false
+}
+
+// JSET with a huge numeric path component makes sjson build an array of that many nulls (open known
+// finding C16-jset-index): the generator steers around it, the thorough tier replays the witness.
+func jsetHugeIndex(cmd []string) bool {
+	if len(cmd) < 4 || !strings.EqualFold(cmd[0], "JSET") {
+		return false
+	}
+	for _, part := range strings.Split(cmd[3], ".") {
+		if len(part) >= 7 && strings.Trim(part, "0123456789") == "" {
+			return true
+		}
 	}
 	return false
 }
@@ -315,11 +331,18 @@ func (a *argFuzz) state() string {
 	if err != nil || !strings.Contains(v.Str, "PONG") || !a.s.Alive() {
 		return "dead"
 	}
-	if _, err := a.by.Do("SET", "bystander", "b", "POINT", "1", "1"); err != nil {
+	wedged := func() string {
+		time.Sleep(300 * time.Millisecond) // a process that is going down may still have answered the PING
+		if !a.s.Alive() {
+			return "dead"
+		}
 		return "wedged"
 	}
+	if _, err := a.by.Do("SET", "bystander", "b", "POINT", "1", "1"); err != nil {
+		return wedged()
+	}
 	if _, err := a.by.Do("GET", "bystander", "b"); err != nil {
-		return "wedged"
+		return wedged()
 	}
 	return ""
 }
@@ -417,6 +440,8 @@ func (a *argFuzz) runBatch(batch [][]string) {
 		cmd, cst := a.culprit(batch, true)
 		if cmd == nil {
 			a.r.Fail(hx.Failure{Kind: "oracle", Signature: "crash-on-arguments", What: "a batch of well-framed commands leaves the server " + st + " (no single command of it does): " + log, Case: batch})
+		} else if cst == "wedged" && jsetHugeIndex(cmd) {
+			a.fail("hang-on-arguments-jset-index", "JSET with a huge array index never returns (sjson pads the array with nulls) and blocks every other connection", cmd, "")
 		} else if cst == "wedged" {
 			a.fail("hang-on-arguments", "well-framed command with hostile arguments never returns and blocks every other connection (reads and writes of a bystander are no longer answered)", cmd, "")
 		} else {
@@ -526,9 +551,19 @@ func runArgFuzz(r *hx.Result, cfg hx.Config, rng *rand.Rand) {
 		{"SETHOOK", "h", "", "NEARBY", "k", "FENCE", "POINT", "1", "1", "1"},
 		{"SETHOOK", "h", "http://127.0.0.1:9/x", "NEARBY", "k", "FENCE", "DETECT", "", "POINT", "1", "1", "1"},
 		{"AOFMD5", "-1", "-1"},
+		{"AOFMD5", "0", "0"},
+		{"AOFMD5", "0", "-0"},
+		{"NEARBY", "k", "BUFFER", "9", "POINT", "33", "-115"},
+		{"NEARBY", "k", "WHERE", "f", "BUFFER", "9", "NOFIELDS", "BOUNDS", "POINT", "33", "-115"},
+		{"EVAL", "return 1", "4611686018427387904"},
+		{"EVALNA", "return 1", "9223372036854775807"},
+		{"EVALROSHA", "da39a3ee5e6b4b0d3255bfef95601890afd80709", "18446744073709551615", "k"},
 		{"CONFIG", "SET", "", ""},
 		{"CLIENT", ""},
 		{"OUTPUT", ""},
+	}
+	if cfg.Tier == "thorough" || cfg.Search {
+		corpus = append(corpus, []string{"JSET", "k", "jnew", "9223372036854775807", "x"}) // open known finding C16-jset-index
 	}
 	for _, cmd := range corpus {
 		a.runBatch([][]string{cmd})
